@@ -282,6 +282,32 @@ def replay_op(rj):
     clause = ob.split(":", 2)[2]
     tol = 1e-8
     seed = int(rj.get("seed", 0))
+    mm = __import__("re").match(r"parameter_(\w+)_used_or_rejected", clause)
+    if mm:
+        # does the result depend on this parameter at all?  (two values, everything else equal)
+        pname = mm.group(1)
+        import unit_scaling.functional as U_
+
+        base = build_op_args(name, cfg, w, seed)
+        if pname not in base:
+            return False, f"parameter {pname} is not part of the replay's argument builder"
+        alts = {"ignore_index": [0, 1], "padding_idx": [0, 1], "eps": [1e-5, 0.5], "p": [0.0, 0.5], "dim": [0, -1], "mult": [0.5, 2.0], "dropout_p": [0.0, 0.0], "max_norm": [0.1, 10.0], "norm_type": [1.0, 2.0], "stride": [1, 2], "padding": [0, 1], "dilation": [1, 2], "approximate": ["none", "tanh"], "is_causal": [False, True], "training": [False, True]}.get(pname)
+        if alts is None:
+            return False, f"no alternative values known for parameter {pname}"
+        outs = []
+        for v in alts:
+            a2 = build_op_args(name, cfg, w, seed)
+            a2[pname] = v
+            if pname == "ignore_index":
+                a2["target"] = a2["target"].clone()
+                a2["target"].reshape(-1)[0] = 0  # one target equals the first alternative only
+            try:
+                torch.manual_seed(seed)
+                outs.append(getattr(U_, name)(**a2).detach().double())
+            except Exception as e:
+                outs.append(f"{type(e).__name__}")
+        same = isinstance(outs[0], torch.Tensor) and isinstance(outs[1], torch.Tensor) and outs[0].shape == outs[1].shape and torch.equal(outs[0], outs[1])
+        return same, f"{name}(..., {pname}={alts[0]!r}) and (..., {pname}={alts[1]!r}) give {'IDENTICAL' if same else 'different'} results: the argument is {'silently ignored' if same else 'used'}"
     if clause == "unknown_constraint_raises_ValueError":
         try:
             measure_op(name, dict(cfg, constraint="definitely_not_a_constraint"), w, seed)
